@@ -33,6 +33,11 @@ CLAIMS = {
    note=TB+"Real flag-package parsing and paths longer than 10 bytes / non-ASCII bytes are outside the bound.",
    technique="SMT-guided symbolic execution of go/ssa over symbolic byte-vector strings; differential against a reference definition; native / end-to-end replay",
    ref="4/C18"),
+ "C19": dict(
+   text="Bounded symbolic execution of the real matcher code (NewPatternMatcher, compileRegexp, PatternMatcher.Match incl. its recompile-on-rule-change state, Options.ShouldSkip/CompareFieldName, IdentMatcher, NameMatcher, FieldConverter, LiteralSetter) with the subject path a vector of symbolic code points over the alphabet Sigma, symbolic case rules and symbolic query histories; the solver proves agreement with the documented meaning (equality, Unicode simple-fold tables generated from Go's unicode package, RE2 membership by symbolic simulation of the natively compiled regexp/syntax program of the original expression) or returns a concrete (pattern, path, rule, history) which is replayed natively.",
+   note=TB+"Bounds: subjects <= 3 (quick) / 5 (thorough) code points of Sigma, 95 catalogue patterns, histories <= 2/3. regexp itself (parser/compiler) is environment.",
+   technique="SMT-guided symbolic execution of go/ssa; rune-vector strings; symbolic Thompson-NFA simulation of regexp/syntax programs; LIA case tables; native replay",
+   ref="4/C19"),
 }
 
 NA_REASON = "check under construction in this session (engine exists, harness not yet registered); see DESIGN.md section 4"
